@@ -24,6 +24,13 @@ Three layers are modelled.
 * **Grid files and the ASDF layer.**  `writeGridAsdf`/`writeGridFits`/… with the ASDF library as a
   parameter (`AsdfLib`) and the assumption about it as the hypothesis structure `AsdfFaithful`.
 
+* **File names, formats, the readers / writers as a whole.**  `guessFormat` (`_guess_file_format`),
+  `resolveName`, `dispatch`, `write…File` / `read…File` (`fmt` argument or guessed extension;
+  `to_dict()` before the dispatch; a pickle of a field is `Field.getState`, of a grid or mode basis
+  the object), and chains of such round trips (`gridChain`, `fieldChain`).  A reader given a file of
+  another format than the one it resolves answers `ValueError`: that branch is a placeholder (the
+  libraries raise various errors) and is neither exercised nor used by a theorem.
+
 Not modelled: the ASDF / FITS / pickle byte formats, NaN and infinities, byte order other than the
 one flag `native` that decides whether `scipy.sparse` accepts an array, default pickling of grids
 and mode bases.
@@ -902,5 +909,12 @@ def fieldChain (lib : AsdfLib) : List (Layout × Hop) → Field → Except Err F
     let c ← writeFieldFile lib l n f x
     let x' ← readFieldFile n f c
     fieldChain lib r x'
+
+def basisChain (lib : AsdfLib) : List Hop → ModeBasis → Except Err ModeBasis
+  | [], b => .ok b
+  | (n, f) :: r, b => do
+    let c ← writeBasisFile lib n f b
+    let b' ← readBasisFile n f c
+    basisChain lib r b'
 
 end HcipyVerif.Serial
